@@ -115,6 +115,49 @@ def explore1(ctx, name, arg, text, hist, d):
     return None, steps
 
 
+def sibling_probe(ctx, name, arg, text, d):
+    """candidates are a function of (content, cursor, configuration): a pass object that has just worked on one file must
+    treat another file of the same base name, size and time stamp exactly as a fresh pass object does"""
+    other = text.translate(str.maketrans('0123456789abcxyz', '1234567890bcayzx'))
+    if other == text or len(other.encode()) != len(text.encode()):
+        return None
+    a, b = d / 'one' / 'a.c', d / 'two' / 'a.c'
+    for f, t in ((a, text), (b, other)):
+        f.parent.mkdir()
+        f.write_text(t)
+        os.utime(f, ns=(10 ** 18, 10 ** 18))
+
+    def drive(p, path):
+        keep = path.name == 'a.c'
+        st = p.new(str(path), None)
+        if keep:
+            os.utime(path, ns=(10 ** 18, 10 ** 18))
+        outs = []
+        for _ in range(3):
+            if st is None:
+                break
+            cd = Path(tempfile.mkdtemp(prefix='c-', dir=d))
+            cand = cd / path.name
+            shutil.copy2(path, cand)
+            res, st2 = p.transform(str(cand), copy.deepcopy(st), ProcessEventNotifier(None))
+            outs.append((res.name, cand.read_text()))
+            shutil.rmtree(cd, ignore_errors=True)
+            if res in (PassResult.STOP, PassResult.ERROR):
+                break
+            st = p.advance(str(path), st)
+        return snapshot(st) if st is not None else None, outs
+    # the reference run uses another base name and time stamp (candidates depend on the content only), so that nothing a
+    # pass may remember about `one/a.c` can apply to it
+    ref = d / 'ref' / 'other_name.c'
+    ref.parent.mkdir()
+    ref.write_text(other)
+    want = drive(make(name, arg), ref)
+    used = make(name, arg)
+    drive(used, a)
+    got = drive(used, b)
+    return None if got == want else f'pass-object-carries-state-between-files:{name}'
+
+
 def cases(ctx):
     rng = ctx.rng
     quick = ctx.tier == 'quick'
@@ -144,7 +187,10 @@ def run(ctx):
     if ctx.replay:
         o = json.load(open(ctx.replay))
         d = Path(tempfile.mkdtemp(prefix='c11-', dir=ctx.scratch))
-        sig, _ = explore(ctx, o['pass'], o['arg'], o['text'], o['hist'], d, o.get('tool_fail'))
+        if o['hist'] == 'sibling-probe':
+            sig = sibling_probe(ctx, o['pass'], o['arg'], o['text'], d)
+        else:
+            sig, _ = explore(ctx, o['pass'], o['arg'], o['text'], o['hist'], d, o.get('tool_fail'))
         print('replayed ->', sig or 'holds')
         if sig:
             ctx.report(sig, 'replayed', o)
@@ -161,6 +207,15 @@ def run(ctx):
             ctx.notes.setdefault('exceptions', []).append(f'{name}::{arg}: {e}'[:200])
         finally:
             shutil.rmtree(d, ignore_errors=True)
+        if not sig and tf is None and (name, arg) in T.PASSES and ctx.rng.random() < 0.5:
+            d2 = Path(tempfile.mkdtemp(prefix='c11s-', dir=ctx.scratch))
+            try:
+                sig = sibling_probe(ctx, name, arg, text, d2)
+                hist = 'sibling-probe'
+            except Exception as e:
+                ctx.notes.setdefault('exceptions', []).append(f'sibling {name}::{arg}: {e}'[:200])
+            finally:
+                shutil.rmtree(d2, ignore_errors=True)
         ctx.count()
         per[f'{name}::{arg}'] = per.get(f'{name}::{arg}', 0) + steps
         if steps >= 2 or (tf and steps):
